@@ -362,6 +362,15 @@ def run(ctx):
                         if len(res.samples) < 12 and d[0] not in [x["rule"] for x in res.samples]:
                             res.samples.append({"rule": d[0], "body": b.path, "site": s.desc, "why": d[1]})
     res.rules["C12.SITE"] = [total, total - len(set(f.key() for f in res.findings))]
+    import controls
+
+    def ctl_runner(crate, b, v, bs):
+        out = []
+        for s in census(crate, b, v, set()):
+            if discharge_lib(s, bs) is None:
+                out.append(Finding("C12.SITE", b.path, "%s is not covered by any guard rule" % s.desc, ""))
+        return out
+    controls.run(ctx, res, "C12", ctl_runner)
     res.analysed = {"panic_capable_sites": total, "discharged_by_rule": by_rule}
     res.floor("panic-capable sites found by the census", total, 19)
     res.floor("sites discharged by C12.FIELDSTATE (derived code)", by_rule.get("C12.FIELDSTATE", 0), 100)
